@@ -116,7 +116,9 @@ class Corr:
         m = kvs(r)
         if m.get("ok") == "0":
             self.contract_broken = True
-            if not self.racing:
+            # (after an ill-formed restart image ids at or above the allocator's next id are in use: "only
+            #  allocated ids are written" no longer holds in the model's terms)
+            if not self.racing and not self.image_bad:
                 raise Diverged("the model calls %r a breach of the callers' contract (pa_client_ok) in a history that keeps it" % line)
         if m.get("img") == "0":
             self.image_bad = True
